@@ -146,8 +146,10 @@ func (p *BundlePropertyExperimenter) UnmarshalBinary(data []byte) error {
 	n += 4
 	p.ExperimenterType = binary.BigEndian.Uint32(data[n:])
 	n += 4
-	if len(data) < int(p.Length) {
-		p.data = data[n:]
+	// the experimenter data runs to the declared length; keep a copy, not a slice of the input
+	if int(p.Length) > n && len(data) >= int(p.Length) {
+		p.data = make([]byte, int(p.Length)-n)
+		copy(p.data, data[n:p.Length])
 	}
 	return nil
 }
